@@ -286,6 +286,12 @@ def run(case):
                 from cgsmiles import MoleculeSampler
                 MoleculeSampler.from_fragment_string('{#PEO=[$]COC[$],#OH=[$]O}', polymer_reactivities={'$': 1.0},
                                                      seed=rng.randrange(1000)).sample(100)
+            elif k < 0.68 and k >= 0.6:
+                # another user of the hydrogen machinery: the mass of a plain SMILES molecule, hydrogens of a bare graph
+                import pysmiles
+                from cgsmiles.pysmiles_utils import compute_mass, rebuild_h_atoms
+                compute_mass(pysmiles.read_smiles(['CCO', 'c1ccccc1', 'CC(=O)[O-]'][step % 3]))
+                rebuild_h_atoms(pysmiles.read_smiles('CCN', explicit_hydrogen=False))
             elif k < 0.6:
                 lib_ = cgsmiles.read_fragments(re.findall(r"\{[^\}]+\}", p['frag_string'])[-1])
                 # ... and the caller edits its own copy in place
